@@ -93,9 +93,32 @@ def _df_binop(lib, prev):
     return value_binop
 
 
+def _symset_eq(lib, prev):
+    """len({e(i) for i in <symbolic range>}) == 1 when the element term does not depend on the index (and the range is non-empty):
+    the set then has exactly one element.  Any other use stays outside the model (EngineError -> UNDECIDED)."""
+    def value_eq(interp, a, b):
+        from ..lib import SymSetLen
+        if isinstance(b, SymSetLen) and not isinstance(a, SymSetLen):
+            a, b = b, a
+        if isinstance(a, SymSetLen) and sv.is_conc(norm(b)) and int(norm(b)) == 1:
+            seq = a.s.seq if hasattr(a.s, "seq") else None
+            if seq is not None:
+                p, q = sv.fresh_int("sp"), sv.fresh_int("sq")
+                same = interp.py_eq(seq.fn(p), seq.fn(q))
+                if isinstance(same, sv.SV):
+                    import z3
+                    same = True if z3.is_true(z3.simplify(sv.zb(same))) else same
+                if same is True and interp.decide(sv.cmp(">=", seq.length, 1)):
+                    return True
+            raise EngineError("len(set(symbolic sequence)) == 1 with index-dependent elements")
+        return prev(interp, a, b)
+    return value_eq
+
+
 def register(lib):
     from .. import lib as L
     from .. import text as T
+    lib.value_eq = _symset_eq(lib, lib.value_eq)
     lib.value_binop = _df_binop(lib, lib.value_binop)
     lib.np["arctan2"] = LibFunc("np.arctan2", _arctan2)
     lib.np["angle"] = LibFunc("np.angle", _angle)
